@@ -46,14 +46,32 @@ def gen_c09_modal_last(rnd, sid):
                 quit_cb=rnd.choice([None, 5]), quit_screen=None, exc_handler=True, run_empty=True, deliver_at=[])
 
 
+def gen_c09_exit_in_closed(rnd, sid):
+    """a modal screen (one or two levels down) whose closed() callback requests the exit, while signals are still pending in its loop: no handler runs any more"""
+    depth = rnd.randint(1, 2)
+    screens = [dict(id=0, name="S0", title=None, text="root", height=30, input_required=True, no_separator=False, skip_check=False,
+                    scripts={"input": [{"acts": [["push_modal", 1, None]], "ret": "PROCESSED"}] + [{"ret": "DISCARDED"}] * 3})]
+    for d in range(1, depth + 1):
+        last = d == depth
+        sc = {"input": [{"acts": ([["enq", "U0", rnd.choice([0, 1]), None, sid.next()] for _ in range(rnd.randint(1, 3))] if last else [["push_modal", d + 1, None]]),
+                         "ret": "CLOSE" if last else "PROCESSED"}] + [{"ret": "CLOSE"}] * 3}
+        if last: sc["closed"] = [{"acts": [["raise_exit"]]}]
+        screens.append(dict(id=d, name="S%d" % d, title=None, text="modal %d" % d, height=30, input_required=True, no_separator=False, skip_check=False, scripts=sc))
+    return dict(op="machine", mode="c09", width=80, screens=screens, handlers=[dict(cls="U0", hid=0, data=None, scripts=[[]] * 6)], init=[["schedule", 0, None]],
+                stdin=["x"] * 6, quit_cb=rnd.choice([None, 5]), quit_screen=None, exc_handler=rnd.random() < 0.5, run_empty=False, deliver_at=[])
+
+
 def generate(rnd, tier):
     n = 500 if tier == "quick" else 6000
     sid = SidCounter()
-    cases = [gen_c09(rnd, sid) for _ in range(n)] + [gen_c09_modal_last(rnd, sid) for _ in range(n // 3)] + [gen_case(rnd, "loop", sid) for _ in range(n // 2)] + [gen_case(rnd, "app", sid) for _ in range(n // 3)] + \
+    cases = [gen_c09_exit_in_closed(rnd, sid) for _ in range(n // 10)] + [gen_c09(rnd, sid) for _ in range(n)] + [gen_c09_modal_last(rnd, sid) for _ in range(n // 3)] + [gen_case(rnd, "loop", sid) for _ in range(n // 2)] + [gen_case(rnd, "app", sid) for _ in range(n // 3)] + \
             [gen_case(rnd, "tame", sid) for _ in range(n // 5)]
     if tier == "thorough":
         from harness.gen.exhaustive import loop_programs
         cases += list(loop_programs(sid))          # small-scope exhaustive: 3 663 programs
+    for c in cases:
+        # a quit callback that was registered before and then replaced (another argument): it is the last registration that is invoked, once
+        if c.get("quit_cb") is not None and rnd.random() < 0.3: c["quit_cb_first"] = c["quit_cb"] + 100
     return [with_cc(c) for c in cases]
 
 
